@@ -153,7 +153,20 @@ def run_args(case, tags):
         combos.append(("gen:bad-type", g(os.path.join(d, "gen_new0.py"), "nonsense"), "reject"))
         for t in ("argparse", "class", "function"):
             combos.append(("gen:%s" % t, g(os.path.join(d, "gen_new_%s.py" % t), t), "accept"))
+        # --- the same files under other spellings (HOME and the working directory are the project directory)
+        os.symlink(existing, os.path.join(d, "gen_link.py"))
+        tilde = lambda pth: "~/" + os.path.basename(pth)
+        combos.append(("gen:output-exists:tilde", g(tilde(existing)), "reject"))
+        combos.append(("gen:output-exists:relative", g(os.path.basename(existing)), "reject"))
+        combos.append(("gen:output-exists:symlink", g(os.path.join(d, "gen_link.py")), "reject"))
+        combos.append(("sync:truth-file-missing:tilde", sync_argv(dict(paths, **{truth: tilde(missing)}), truth, KEYS), "reject"))
+        combos.append(("sync:three-kinds:tilde", sync_argv({k: tilde(v) for k, v in paths.items()}, truth, KEYS), "accept"))
+        combos.append(("sync:three-kinds:relative", sync_argv({k: os.path.basename(v) for k, v in paths.items()}, truth, KEYS), "accept"))
+        combos.append(("sync_properties:input-missing:tilde", sp(tilde(missing), outp), "reject"))
         sys.path.insert(0, d)
+        old_home, old_cwd = os.environ.get("HOME"), os.getcwd()
+        os.environ["HOME"] = d
+        os.chdir(d)
         try:
             for label, argv, expect in combos:
                 before = project.snapshot(d)
@@ -197,6 +210,11 @@ def run_args(case, tags):
                     if not want_zero and project.snapshot(d) != before:
                         discs.append(Disc("rejected:filesystem-changed", label, "real process changed the directory", (), ctx))
         finally:
+            os.chdir(old_cwd)
+            if old_home is None:
+                os.environ.pop("HOME", None)
+            else:
+                os.environ["HOME"] = old_home
             if d in sys.path:
                 sys.path.remove(d)
             sys.modules.pop("c20gen_in", None)
